@@ -871,4 +871,26 @@ pub mod verif {
     pub use super::client::verif as client;
     pub use super::server::verif as server;
     pub use super::utils::verif as utils;
+
+    // C30: the private codec, reachable through thin wrappers
+    pub const REQUEST_SIZE_LIMIT_V: usize = REQUEST_SIZE_LIMIT;
+    pub const RESPONSE_SIZE_LIMIT_V: usize = RESPONSE_SIZE_LIMIT;
+    fn codec_protocol() -> StreamProtocol {
+        StreamProtocol::new("/verif/header-ex")
+    }
+    pub async fn codec_read_request<T: AsyncRead + Unpin + Send>(io: &mut T) -> io::Result<HeaderRequest> {
+        HeaderCodec.read_request(&codec_protocol(), io).await
+    }
+    pub async fn codec_read_response<T: AsyncRead + Unpin + Send>(io: &mut T) -> io::Result<Vec<HeaderResponse>> {
+        HeaderCodec.read_response(&codec_protocol(), io).await
+    }
+    pub async fn codec_write_request<T: AsyncWrite + Unpin + Send>(io: &mut T, req: HeaderRequest) -> io::Result<()> {
+        HeaderCodec.write_request(&codec_protocol(), io, req).await
+    }
+    pub async fn codec_write_response<T: AsyncWrite + Unpin + Send>(io: &mut T, resps: Vec<HeaderResponse>) -> io::Result<()> {
+        HeaderCodec.write_response(&codec_protocol(), io, resps).await
+    }
+    pub fn parse_delimiter_v(buf: &[u8]) -> Option<(usize, &[u8])> {
+        parse_delimiter(buf)
+    }
 }
